@@ -135,6 +135,22 @@ def extract(config="all", repo=None, quiet=True):
         lock.close()
 
 
+TOUCHED = {}          # body key -> set of rule names that read its blocks (only filled under VERIF_COVERAGE)
+CURRENT_RULE = ["?"]
+
+
+class TrackedBody(dict):
+    def __getitem__(self, k):
+        if k == "blocks":
+            TOUCHED.setdefault(dict.__getitem__(self, "key"), set()).add(CURRENT_RULE[0])
+        return dict.__getitem__(self, k)
+
+    def get(self, k, d=None):
+        if k == "blocks":
+            TOUCHED.setdefault(dict.__getitem__(self, "key"), set()).add(CURRENT_RULE[0])
+        return dict.get(self, k, d)
+
+
 class Facts:
     def __init__(self, path, config):
         with open(path) as fh:
@@ -152,6 +168,9 @@ class Facts:
             raise FactsError("unexpected feature set for %s: %s" % (config, sorted(feats)))
         self.features = feats
         self.bodies = d["bodies"]
+        if os.environ.get("VERIF_COVERAGE"):
+            # tools/coverage_map.py: record which bodies' MIR (blocks) a rule actually reads
+            self.bodies = d["bodies"] = [TrackedBody(b) for b in d["bodies"]]
         self.adts = {a["path"]: a for a in d["adts"]}
         self.impls = d["impls"]
         self.statics = d["statics"]
@@ -179,6 +198,18 @@ class Facts:
                         k = "::".join(k.split("::")[:-1])
                     base = self.by_key.get(k, b)
                     b["uname"] = "%s<%s>" % (q, base.get("impl_self", base["key"]))
+        # several impls of one trait for one self type (Seq<char> / Seq<&Grapheme> for &str): add the full trait reference
+        cnt = {}
+        for b in self.bodies:
+            cnt[b["uname"]] = cnt.get(b["uname"], 0) + 1
+        for b in self.bodies:
+            if cnt[b["uname"]] > 1:
+                k = b["key"]
+                while "{closure#" in k.split("::")[-1]:
+                    k = "::".join(k.split("::")[:-1])
+                base = self.by_key.get(k, b)
+                if base.get("impl_trait_full"):
+                    b["uname"] = "%s<%s>" % (b["qname"], base["impl_trait_full"])
         self.by_uname = {b["uname"]: b for b in self.bodies}
 
     def _qname(self, b):
